@@ -1,0 +1,16 @@
+//go:build verif
+// +build verif
+
+package util
+
+// VerifStepHook, when set, is called at every atomic-step boundary of
+// resource_pool.go (the verifStep call lines). The verification harness
+// installs a scheduler here that lets exactly one goroutine proceed from step
+// point to step point. Nil (the default) makes verifStep a no-op.
+var VerifStepHook func(label string)
+
+func verifStep(label string) {
+	if h := VerifStepHook; h != nil {
+		h(label)
+	}
+}
